@@ -84,9 +84,14 @@ def run_merge(ctx):
     # ---------------------------------------------------------------- value aggregates and hosts
     inv = "MergeCanonical MergeHosts TsCanonical"
     if th:
-        mc = ctx.tlc("RowMergeMC", "RowMerge_mc_big.cfg", timeout=3000, coverage=True,
-                     constants={"MaxLeaves": 4, "shapes": 14, "DEN": 6, "invariants": inv})
+        mc = ctx.tlc("RowMergeMC", "RowMerge_mc_big.cfg", timeout=3000,
+                     constants={"MaxLeaves": 4, "shapes": 10, "DEN": 6, "invariants": inv})
         ctx.require_model_ok(mc, "RowMerge invariants")
+        cov = ctx.tlc("RowMergeMC", "RowMerge_mc.cfg", timeout=900, coverage=True, name="RowMerge MC with coverage",
+                      constants={"MaxLeaves": 3, "shapes": 10, "DEN": 6, "invariants": inv})
+        ctx.require_model_ok(cov, "RowMerge invariants (coverage run)")
+        if cov.zero_cov:
+            raise Infra("actions never taken in RowMerge: %s" % cov.zero_cov)
     beh = ctx.tlc("RowMergeMC", "RowMerge_beh_big.cfg" if th else "RowMerge_beh.cfg", timeout=3000 if th else 900,
                   name="MC + merge behaviours (multiset, order, tree)",
                   constants={"MaxLeaves": 4 if th else 3, "shapes": 6 if th else 10, "DEN": 6, "invariants": inv})
@@ -94,7 +99,7 @@ def run_merge(ctx):
     tab = shape_table(beh)
     bs = beh.behaviours
     rnd.shuffle(bs)
-    bs = bs[: (60000 if th else 8000)]
+    bs = bs[: (30000 if th else 8000)]
     res, out, rc = ctx.go_test("internal/data_model", "TestVerifC04Merge", inp=[[tab]] + bs,
                                env={"VERIF_DEN": 6, "VERIF_ROUNDS": 3 if th else 2}, timeout=1500)
     res = ctx.need_result(res, out, rc, "TestVerifC04Merge")
@@ -107,7 +112,7 @@ def run_merge(ctx):
     for s in res.get("samples", [])[:2]:
         ctx.ev.sample(s)
     # the same behaviours on the API's tsValues.merge (with real sketches attached)
-    res2, out2, rc2 = ctx.go_test("internal/api", "TestVerifC04TsValues", inp=[[tab]] + bs[: (20000 if th else 4000)],
+    res2, out2, rc2 = ctx.go_test("internal/api", "TestVerifC04TsValues", inp=[[tab]] + bs[: (10000 if th else 3000)],
                                   env={"VERIF_DEN": 6, "VERIF_BIGEVERY": 300 if th else 400}, timeout=1500)
     res2 = ctx.need_result(res2, out2, rc2, "TestVerifC04TsValues")
     n2 = ctx.replay_s2i_mismatches(res2, "tsvalues")
@@ -122,10 +127,16 @@ def run_merge(ctx):
 def run_unique(ctx):
     th = ctx.thorough
     # ---------------------------------------------------------------- unique sketch
-    um = ctx.tlc("Unique", "Unique_mc_big.cfg" if th else "Unique_mc.cfg", timeout=3000 if th else 600, coverage=th,
-                 constants={"MAXSIZE": 4 if th else 2, "NSk": 3, "MaxIns": 6 if th else 4, "MaxMrg": 3 if th else 2})
+    um = ctx.tlc("Unique", "Unique_mc_big.cfg" if th else "Unique_mc.cfg", timeout=3000 if th else 900,
+                 constants={"MAXSIZE": 2, "NSk": 3, "MaxIns": 5 if th else 4, "MaxMrg": 2, "hashes": 6 if th else 5})
     ctx.require_model_ok(um, "Unique invariants")
     ctx.ev.set("exhaustive", True)
+    if th:
+        u4 = ctx.tlc("Unique", "Unique_mc_max4.cfg", timeout=3000, coverage=True, name="Unique MC (MAXSIZE 4, two sketches)",
+                     constants={"MAXSIZE": 4, "NSk": 2, "MaxIns": 7, "MaxMrg": 2, "hashes": 11})
+        ctx.require_model_ok(u4, "Unique invariants (MAXSIZE 4)")
+        if u4.zero_cov:
+            raise Infra("actions never taken in Unique: %s" % u4.zero_cov)
     if th:
         for cfg, what in (("Unique_orig_merge.cfg", "Merge filtering with rhs.good"),
                           ("Unique_orig_mergeread.cfg", "MergeRead not raising the skip degree")):
@@ -135,7 +146,7 @@ def run_unique(ctx):
     prog = ctx.tlc("Unique", "Unique_prog.cfg", timeout=600, name="merge programs")
     ctx.require_model_ok(prog, "merge programs")
     res3, out3, rc3 = ctx.go_test("internal/data_model", "TestVerifC04Unique", inp=prog.behaviours,
-                                  env={"VERIF_NSK": 3, "VERIF_MAXPROGS": 1728 if th else 120, "VERIF_NSCEN": 4 if th else 2},
+                                  env={"VERIF_NSK": 3, "VERIF_MAXPROGS": 600 if th else 120, "VERIF_NSCEN": 4 if th else 2},
                                   timeout=1500)
     res3 = ctx.need_result(res3, out3, rc3, "TestVerifC04Unique")
     if res3.get("consts", {}).get("uniquesHashMaxSize") != 65536:
